@@ -20,7 +20,7 @@ EXTENDS Naturals, Sequences, TLC, FiniteSets, Json
 CONSTANTS MaxRecs
 FCands == { [name |-> "fA", addr |-> 2, size |-> 4, psize |-> 4], [name |-> "fB", addr |-> 6, size |-> 2, psize |-> 0],
             [name |-> "fC", addr |-> 9, size |-> 2, psize |-> 8], [name |-> "fZ", addr |-> 8, size |-> 0, psize |-> 1] }       \* fZ: zero size, ignored
-PCands == { [name |-> "p0", addr |-> 0, psize |-> 5], [name |-> "p1", addr |-> 1, psize |-> 1], [name |-> "p6", addr |-> 6, psize |-> 2], [name |-> "p8", addr |-> 8, psize |-> 3] }
+PCands == { [name |-> "p0", addr |-> 0, psize |-> 5], [name |-> "p1", addr |-> 1, psize |-> 1], [name |-> "p3", addr |-> 3, psize |-> 7], [name |-> "p6", addr |-> 6, psize |-> 2], [name |-> "p8", addr |-> 8, psize |-> 3] }
 \* line records of fA (file 1); a zero-size line is dropped
 \* file 1 has a FILE record, file 7 has none: such a record still counts, it only cannot name its file
 LCands == { [addr |-> 2, size |-> 1, line |-> 10, file |-> 1], [addr |-> 3, size |-> 2, line |-> 11, file |-> 1], [addr |-> 5, size |-> 1, line |-> 12, file |-> 1], [addr |-> 3, size |-> 0, line |-> 99, file |-> 1],
@@ -31,7 +31,9 @@ ICands == { [id |-> "i0a", depth |-> 0, ranges |-> <<<<2, 2>>>>, cline |-> 20, o
             [id |-> "i1a", depth |-> 1, ranges |-> <<<<3, 1>>>>, cline |-> 21, origin |-> 2, cfile |-> 1],
             [id |-> "i2a", depth |-> 2, ranges |-> <<<<3, 1>>>>, cline |-> 23, origin |-> 1, cfile |-> 1],
             [id |-> "i0x", depth |-> 0, ranges |-> <<<<2, 2>>>>, cline |-> 24, origin |-> 1, cfile |-> 7],                \* call sites in a file without FILE record
-            [id |-> "i1x", depth |-> 1, ranges |-> <<<<3, 1>>>>, cline |-> 25, origin |-> 2, cfile |-> 7] }
+            [id |-> "i1x", depth |-> 1, ranges |-> <<<<3, 1>>>>, cline |-> 25, origin |-> 2, cfile |-> 7],
+            [id |-> "i0y", depth |-> 0, ranges |-> <<<<2, 2>>>>, cline |-> 26, origin |-> 3, cfile |-> 1],                \* origin 3 has no INLINE_ORIGIN record
+            [id |-> "i1y", depth |-> 1, ranges |-> <<<<3, 1>>>>, cline |-> 27, origin |-> 3, cfile |-> 1] }
 \* STACK WIN records (only their parameter sizes matter here)
 WCands == { [kind |-> "fd", addr |-> 3, size |-> 2, psize |-> 12], [kind |-> "fpo", addr |-> 2, size |-> 3, psize |-> 16] }
 Origins == <<"o1", "o2">>
@@ -65,10 +67,12 @@ PubFor(a) == LET P == {p \in pubs : p.addr <= a} IN
 FileName(id) == IF id = 1 THEN "a.c" ELSE "none"
 InnerLine(a) == IF LineAt(a) = {} THEN [file |-> "none", line |-> 0] ELSE LET l == CHOOSE l \in LineAt(a) : TRUE IN [file |-> FileName(l.file), line |-> l.line]
 RECURSIVE InlChain(_,_,_)
+\* a level whose origin id has no INLINE_ORIGIN record has no name and contributes no frame; the levels below it are unaffected
+Named(o, file, line) == IF o \in 1..Len(Origins) THEN <<[name |-> Origins[o], file |-> file, line |-> line]>> ELSE <<>>
 InlChain(a, d, prevOrigin) ==                      \* frames for depths d, d+1, ... given the origin of depth d-1
-   IF InlAt(d, a) = {} THEN <<[name |-> Origins[prevOrigin], file |-> InnerLine(a).file, line |-> InnerLine(a).line]>>
+   IF InlAt(d, a) = {} THEN Named(prevOrigin, InnerLine(a).file, InnerLine(a).line)
    ELSE LET i == CHOOSE x \in InlAt(d, a) : TRUE IN
-        <<[name |-> Origins[prevOrigin], file |-> FileName(i.cfile), line |-> i.cline]>> \o InlChain(a, d + 1, i.origin)
+        Named(prevOrigin, FileName(i.cfile), i.cline) \o InlChain(a, d + 1, i.origin)
 NoSym == [fn |-> "none", base |-> 0, psize |-> 0, src |-> <<>>, inl |-> <<>>]
 Expected(a) ==
   IF FuncAt(a) # {} THEN
